@@ -384,7 +384,7 @@ def run(ctx):
 
     # -------- datasets
     n_ds = 110 if quick else 800
-    n_prog = 36 if quick else 120
+    n_prog = 30 if quick else 120
     jobs = []
     # corpus first
     cdir = os.path.join(C.VERIF, "corpus", "C05")
@@ -410,7 +410,7 @@ def run(ctx):
     # wave-3 dimensions (fixed counts per run): long text values with statistics, partition keys at integer representation
     # boundaries, tz-aware timestamps against constants in other zones, one-sided / foreign statistics
     for flavour, cnt, focus in (("long", 14 if quick else 100, ["ls", "ls", "ls", "i"]), ("bigpart", 14 if quick else 100, ["q", "q", "q", "i"]),
-                                ("tz", 14 if quick else 100, ["tz", "tz", "tz", "i", "p"]), ("onesided", 30 if quick else 200, None)):
+                                ("tz", 14 if quick else 100, ["tz", "tz", "tz", "i", "p"]), ("onesided", 26 if quick else 200, None)):
         for _ in range(cnt):
             spec = FL.gen_dataset_w3(rng, flavour)
             ch = chunks_of(spec)
@@ -450,7 +450,7 @@ def run(ctx):
         for first, second in ((a, b), (b, a)):
             spec = dict(second, prelude=FL.shifted_spec(first, 0), flavour="twin-after-prelude")
             ch = chunks_of(spec)
-            jobs.append((spec, [FL.gen_program(rng, spec, ch, wrong_type=0) for _ in range(14 if quick else 40)], False))
+            jobs.append((spec, [FL.gen_program(rng, spec, ch, wrong_type=0) for _ in range(10 if quick else 40)], False))
     results = C.pmap(run_dataset, jobs, init=_init, nproc=min(8, os.cpu_count() or 4), job_timeout=300)
 
     # -------- oracle + collect model expressions
